@@ -89,11 +89,11 @@ def main():
     dcases = []
     for i in range(n // 3):
         S = rng.choice([1, 2])
-        ops = _c05.UNTIMED + (["onceT", "histT"] if rng.random() < 0.3 else [])
-        g = Gen(rng, vars_=rng.choice([("x",), ("x", "y")]), S=S, ops=ops, ivs=[(1, 1), (2, 2), (0, 1)], bool_atoms=True)
+        ops = _c05.UNTIMED + (["onceT", "histT", "sinceT"] if rng.random() < 0.5 else [])
+        g = Gen(rng, vars_=rng.choice([("x",), ("x", "y")]), S=S, ops=ops, ivs=[(1, 1), (2, 2), (0, 1), (1, 3), (0, 2)], bool_atoms=True)
         for _ in range(30):
             phi = g.formula(rng.choice([1, 2, 2]))
-            if vars_of(phi) and not any(q["op"] in BIN2 and not vars_of(q) for q in subformulas(phi)):
+            if vars_of(phi):
                 break
         else:
             continue
